@@ -3,6 +3,7 @@ package sim
 import (
 	"fmt"
 	"strings"
+	"time"
 )
 
 // C13 - LMTP returns one status per accepted recipient, in order, correctly
@@ -21,6 +22,7 @@ type c13X struct {
 	Chunks        []int
 	Flavor        int
 	Panic         bool
+	PanicFinalDue bool // the final response is due when the panic surfaces
 	OutOfContract bool
 	EarlyFail     int         // -1 none, else the backend returns an error after reading this many octets (< message size)
 	FailChunk     int         // chunk whose copy fails (-1 none)
@@ -156,8 +158,11 @@ func genC13(t *Tape, tier string) *Scenario {
 	}
 	if mode == 1 {
 		x.Panic = true
+		if t.Bool() {
+			sc.LogPark = Dur(1+t.Intn(20)) * 100 * time.Microsecond // the panic is logged to a slow sink
+		}
 		dp.V = Verdict{Kind: vPanic, Msg: "in LMTPData"}
-		dp.PanicWhen = t.Intn(3)
+		dp.PanicWhen = t.Intn(4)
 		// statuses scheduled at or after the panic point are never set
 		set := map[string]int{}
 		for i := range final {
@@ -168,7 +173,7 @@ func genC13(t *Tape, tier string) *Scenario {
 			occ[a] = append(occ[a], i)
 		}
 		for _, st := range dp.Statuses {
-			if st.When < dp.PanicWhen || dp.PanicWhen == 2 {
+			if (dp.PanicWhen == 3 && st.When == 0) || (dp.PanicWhen != 3 && st.When < dp.PanicWhen) || dp.PanicWhen == 2 {
 				idx := occ[st.Addr][set[st.Addr]]
 				set[st.Addr]++
 				code, tok := 250, "OK: queued"
@@ -210,6 +215,24 @@ func genC13(t *Tape, tier string) *Scenario {
 			if !explicit[i] {
 				final[i] = c13Expect{Rcpt: x.Accepted[i], Code: retCode, Token: retTok}
 			}
+		}
+	}
+	if x.Panic {
+		// Is the final response due when the panic surfaces? With DATA always; with
+		// BDAT only if the command loop is handling the LAST chunk at that moment:
+		// a panic after the message was read happens after LAST, a panic before
+		// reading surfaces at the first chunk that hands over an octet (or at LAST
+		// if all chunks before it are empty).
+		x.PanicFinalDue = true
+		if x.ViaBdat && (dp.PanicWhen == 0 || dp.PanicWhen == 3) {
+			failing := len(x.Chunks) - 1
+			for i, c := range x.Chunks {
+				if c > 0 {
+					failing = i
+					break
+				}
+			}
+			x.PanicFinalDue = failing == len(x.Chunks)-1
 		}
 	}
 	sc.BE.Conns = []ConnBackendPlan{{Data: []DataPlan{dp}}}
@@ -346,6 +369,24 @@ func checkC13(sc *Scenario, h *History) []Violation {
 		if ch.SrvCloseSeq < 0 {
 			out = append(out, Violation{Rule: "C13.panic-open", Detail: "the connection was not closed after a backend panic", Witness: wit})
 		}
+		// statuses the backend set explicitly before it panicked are not lost
+		if x.PanicFinalDue && x.Flavor == beLMTP {
+			base := x.Pre + len(x.Expect)
+			for i, e := range x.Final {
+				if e.Code == 0 {
+					continue
+				}
+				if base+i >= len(replies) {
+					out = append(out, Violation{Rule: "C13.panic-status-lost", Detail: fmt.Sprintf("the backend set status %d for recipient %d (<%s>) before it panicked, but the final response has only %d replies: %s", e.Code, i, e.Rcpt, len(replies)-base, strings.Join(codes[minInt(base, len(codes)):], " ")), Witness: wit})
+					break
+				}
+				r := replies[base+i]
+				if r.Code != e.Code || !strings.Contains(r.Last(), "<"+e.Rcpt+"> ") {
+					out = append(out, Violation{Rule: "C13.panic-status-lost", Detail: fmt.Sprintf("the backend set status %d for recipient %d (<%s>) before it panicked, reply %d is %q", e.Code, i, e.Rcpt, i, r.String()), Witness: wit})
+					break
+				}
+			}
+		}
 		return out
 	}
 	if len(replies) != want {
@@ -421,6 +462,9 @@ func classifyC13(sc *Scenario, h *History, st *Stats) string {
 	}
 	if x.Panic {
 		st.Probes["backend_panic"]++
+		if sc.LogPark > 0 {
+			st.Probes["backend_panic_logged_to_slow_sink"]++
+		}
 	}
 	if x.EarlyFail >= 0 {
 		st.Probes["backend_fails_early"]++
